@@ -32,6 +32,8 @@ type Env struct {
 	at    *ssa.BasicBlock
 	atIdx int
 	depth int
+	// aliasKey: the function whose contract is being translated (rename recovery, alias.go)
+	aliasKey string
 }
 
 type specErr string
@@ -469,6 +471,11 @@ func (e *Env) unifyNil(l, r Val, x Expr) (Val, Val) {
 }
 
 func (e *Env) ident(name string) Val {
+	if al := e.g.w.aliases[e.aliasKey]; al != nil {
+		if n, ok := al[name]; ok {
+			name = n
+		}
+	}
 	// inside a body (invariants, assertions, ghost code) a name denotes the current value of the
 	// source variable, also when it is a reassigned parameter; in pre/postconditions and under
 	// old() parameters denote their entry values
